@@ -52,6 +52,20 @@ void *memset(void *, int, unsigned long);
 #endif
 /* ---- std::vector<T> : concrete array, symbolic size; capacity must be provided by the precondition ---- */
 #define VEC_T(T, M) struct vec_##M { T *data; unsigned long size; unsigned long cap; };
+/* how erase moves the tail down: default = ghost-index model (one pinned element exact, the others unconstrained);
+   -DSHIM_VEC_ERASE_EXACT4 = exact for vectors of at most 4 elements (asserted), used where every element matters */
+#ifdef SHIM_VEC_ERASE_EXACT4
+#define SHIM_VEC_ERASE_MOVE(T) \
+    SHIM_ASSERT(n <= 4, "shim.vector.erase.exact_model_needs_at_most_4_elements"); \
+    if (idx + 1 < n) v->data[idx] = v->data[idx + 1]; \
+    if (idx + 2 < n) v->data[idx + 1] = v->data[idx + 2]; \
+    if (idx + 3 < n) v->data[idx + 2] = v->data[idx + 3];
+#else
+#define SHIM_VEC_ERASE_MOVE(T) \
+    _Bool pin = g_vec_idx >= idx && g_vec_idx + 1 < n; T keep; if (pin) keep = v->data[g_vec_idx + 1]; \
+    if (n - idx > 1) __CPROVER_havoc_slice(pos, (n - idx - 1) * sizeof(T)); \
+    if (pin) v->data[g_vec_idx] = keep;
+#endif
 #define VEC_F(T, M) \
   static inline T *vec_##M##_at(struct vec_##M *v, unsigned long i) { SHIM_ASSERT(i < v->size, "shim.vector.index.in_range"); return &v->data[i]; } \
   static inline T *vec_##M##_at_checked(struct vec_##M *v, unsigned long i) { if (!(i < v->size)) { __exc = EXC_out_of_range; return v->data; } return &v->data[i]; } \
@@ -66,9 +80,7 @@ void *memset(void *, int, unsigned long);
   static inline T *vec_##M##_erase(struct vec_##M *v, T *pos) { \
     SHIM_ASSERT(__CPROVER_same_object(pos, v->data) && pos >= v->data && pos < v->data + v->size, "shim.vector.erase.position_valid"); \
     unsigned long idx = (unsigned long)(pos - v->data); unsigned long n = v->size; \
-    _Bool pin = g_vec_idx >= idx && g_vec_idx + 1 < n; T keep; if (pin) keep = v->data[g_vec_idx + 1]; \
-    if (n - idx > 1) __CPROVER_havoc_slice(pos, (n - idx - 1) * sizeof(T)); \
-    if (pin) v->data[g_vec_idx] = keep; \
+    SHIM_VEC_ERASE_MOVE(T) \
     v->size = n - 1; return pos; } \
   static inline void vec_##M##_reserve(struct vec_##M *v, unsigned long n) { \
     if (n > v->cap && v->size == 0) { SHIM_ASSERT(n <= g_alloc_bound, "shim.alloc.bounded_by_input"); \
@@ -93,6 +105,8 @@ void *memset(void *, int, unsigned long);
 #define RITER_PREDEC(p) ((p)->base = (p)->base + 1, (p))
 #define OPAQUE_DECL(M) struct opaque_##M { char __opaque; };
 
+/* std::function<R(Args...)>: code pointer + environment (the closure object of a lambda, or null) */
+struct stdfn { void *fn; void *env; };
 /* opaque heap object: non-null pointer into nothing (dereferencing it fails the pointer checks) */
 void *nondet_ptr(void);
 static inline void *shim_opaque_ptr(void) { void *p = nondet_ptr(); __CPROVER_assume(p != 0); return p; }
@@ -100,8 +114,16 @@ static inline void *shim_opaque_ptr(void) { void *p = nondet_ptr(); __CPROVER_as
 extern long g_last_now;
 static inline long shim_now_ns(void) { long t = nondet_long(); __CPROVER_assume(t >= g_last_now && t < ((long)1 << 62)); g_last_now = t; return t; }
 /* ---- std::atomic<bool>::compare_exchange (sequential model; weak form may fail spuriously) ---- */
+/* compare_exchange_weak may fail spuriously by the standard; on the x86-64 target this repository is built for here it is
+   `lock cmpxchg` and cannot.  Default: weak == strong (listed as an assumption in every evidence file that uses it);
+   -DSHIM_CAS_SPURIOUS models the spurious failure. */
+#ifdef SHIM_CAS_SPURIOUS
+#define SHIM_CAS_FAILS(weak) ((weak) && nondet_bool())
+#else
+#define SHIM_CAS_FAILS(weak) 0
+#endif
 static inline _Bool shim_cas_bool(_Bool *obj, _Bool *expected, _Bool desired, int weak) {
-  if (*obj == *expected && !(weak && nondet_bool())) { *obj = desired; return 1; }
+  if (*obj == *expected && !SHIM_CAS_FAILS(weak)) { *obj = desired; return 1; }
   *expected = *obj; return 0; }
 static inline _Bool shim_xchg_bool(_Bool *obj, _Bool v) { _Bool o = *obj; *obj = v; return o; }
 /* ---- <cctype> : ASCII ("C" locale) ---- */
